@@ -24,7 +24,7 @@ TECHNIQUE = 'model-based PBT for presence; mutation-based isolation test; invari
 BUDGET = {'quick': {'cases': 8000, 'seconds': 45}, 'thorough': {'cases': 300000, 'seconds': 540}}
 KINDS = ['add', 'add', 'add', 'add', 'add', 'add_from', 'path', 'cycle', 'node', 'node', 'nodes_from', 'recip']
 
-GATTR = st.dictionaries(st.sampled_from(['name2', 'meta', 'tags']), gen.ATTR_VALUES, max_size=2)
+GATTR = st.dictionaries(st.sampled_from(['name2', 'meta', 'tags', 'edge_removal', 'data', 'name']), gen.ATTR_VALUES, max_size=2)
 
 
 def strategy(tier):
